@@ -244,6 +244,7 @@ def run(ctx):
     # ---- R11.5: reuse C03's toggle::check obligations
     from . import C03
     sub = type(ctx)(ctx.prop, ctx.prog, ctx.tier)
+    sub._sharing = True
     C03.run(sub)
     n5 = 0
     for o in sub.obs:
